@@ -48,7 +48,9 @@ func genC11(tier string, rng *RNG, w *CaseWriter) {
 		for k := (n / 2) % 3; k > 0; k-- { // chain length 2..4
 			plans = append(plans, randPlan())
 		}
+		revSelfIssuedIntermediate = n%4 == 2 // only chains of three and more have the CA it renames
 		emitRev(w, buildPlanCase(entry, purp, plans, st, n%11 == 5), true)
+		revSelfIssuedIntermediate = false
 	}
 	for nO := 0; nO <= 3; nO++ {
 		for nC := 0; nC <= 3; nC++ {
